@@ -138,6 +138,7 @@ class Obligations:
         self.build_log = ""
         self.forbidden: list[str] = []
         self.modules: list[str] = []
+        self.leanchecker: dict | None = None
 
     @property
     def n(self):
@@ -217,6 +218,17 @@ def check_obligations(pid: str, prop_modules: list[str], support_modules: list[s
                 ob.theorems[nm] = {"axioms": axs, "ok": not extra, "why": ("extra axioms " + ",".join(extra)) if extra else ""}
         if mod_failed and not names:
             ob.theorems[mod] = {"axioms": None, "ok": False, "why": "module failed to build"}
+    # thorough tier: independent re-check of the compiled .olean files of the property modules
+    if os.environ.get("VERIF_TIER") == "thorough" or (len(sys.argv) > 1 and sys.argv[1] == "thorough"):
+        good = [m for m in prop_modules if not any(not t["ok"] for t in ob.theorems.values()) ]
+        if good:
+            with LakeLock():
+                p = subprocess.run(["lake", "env", "leanchecker", *good], cwd=LEAN, capture_output=True, text=True, timeout=3600)
+            ob.leanchecker = {"modules": good, "rc": p.returncode, "tail": (p.stdout + p.stderr)[-500:]}
+            if p.returncode != 0:
+                for t in ob.theorems.values():
+                    t["ok"] = False
+                    t["why"] = "leanchecker rejected the compiled module: " + (p.stdout + p.stderr)[-300:]
     if ob.forbidden:
         for t in ob.theorems.values():
             t["ok"] = False
@@ -400,6 +412,7 @@ class Check:
             "rule": self.rule,
             "samples": self.samples[:8] if self.samples else ["<none>"],
             "known_findings_hit": [v["key"] for v in self.known_hits],
+            "leanchecker": (ob.leanchecker if ob else None),
         }
         cov.update(self.extra)
         ev = {
